@@ -153,7 +153,14 @@ func (n *vfCNode) stepOp(step int, round string, nodes []*vfCNode, t int) client
 	switch step {
 	case vfStepCommits:
 		var p responses.DKGProposalPubKeysParticipantResponse
-		for _, o := range nodes {
+		order := append([]*vfCNode{}, nodes...)
+		if vf.Param("listing") == "rev" {
+			// the participants listed in descending id order (the machine sorts them itself)
+			for i, j := 0, len(order)-1; i < j; i, j = i+1, j-1 {
+				order[i], order[j] = order[j], order[i]
+			}
+		}
+		for _, o := range order {
 			pk, _ := o.am.pubKey.MarshalBinary()
 			p = append(p, &responses.DKGProposalPubKeysParticipantEntry{ParticipantId: o.id, Username: o.name, DkgPubKey: pk, Threshold: t})
 		}
